@@ -5,7 +5,9 @@ Correspondence: the real `ribs.archives.ArrayStore` and the Lean `Store` model
 Oracle: a direct reading of the property on the implementation's own
 observations (insertion-ordered dictionary semantics kept by the harness).
 """
+import copy
 import io
+import pickle
 
 import numpy as np
 
@@ -48,7 +50,9 @@ THEOREMS = [
 ]
 RULE = ("random histories of add (random index lists with repeats, random transform chains, out-of-range "
         "and malformed adds), clear, resize (legal/illegal), retrieve (random index lists, field selections, "
-        "return types), raw round trips (direct and via np.savez) and iterators over 5 field layouts and "
+        "return types), raw round trips (direct and via np.savez), copies of the store (pickle round trip, "
+        "copy.deepcopy, both chained, taken at a random point after every read-only property has been read; the copy "
+        "and the original are both driven on with the rest of the history) and iterators over 8 field layouts and "
         "capacities 0..8; a case is non-trivial when it contains an add naming an index twice or an add onto an "
         "occupied index, and is counted once per distinct op list")
 PARTIAL = []
@@ -278,7 +282,42 @@ def gen_case(rng):
         else:
             if iters:
                 ops.append({"op": "iternext", "k": rng.randint(1, iters)})
+    sprinkle_ckpt(rng, ops, 0.55)
     return {"cap": cap, "layout": layout, "ops": ops}
+
+
+CKPT_HOW = ["pickle", "deepcopy", "pickle+deepcopy", "deepcopy+pickle"]
+
+
+def sprinkle_ckpt(rng, ops, p):
+    """the history CONTINUES ON A COPY of the store: at a random point (also before the first operation) the store is
+    copied (pickle round trip, copy.deepcopy, both chained); `main` says which of the two objects carries the rest of
+    the history in lock step with the model (with the iterators, retrievals, raw round trips), the other one is driven
+    on with the same modifying calls and compared after every one.  `warm`: every public read-only property is read
+    first (and what it returned is still alive while the copy is made); `probe`: straight after the copy one row is
+    added to one of the two only, which must not show in the other."""
+    if rng.random() >= p:
+        return
+    for _ in range(rng.choice([1, 1, 2])):
+        ops.insert(rng.randint(0, len(ops)),
+                   {"op": "ckpt", "how": rng.choice(CKPT_HOW), "main": rng.choice(["copy", "copy", "orig"]),
+                    "warm": rng.random() < 0.85, "probe": rng.random() < 0.5, "proto": rng.choice([None, None, 2, 5])})
+
+
+def copy_store(store, how, proto=None):
+    for step in how.split("+"):
+        if step == "pickle":
+            store = pickle.loads(pickle.dumps(store) if proto is None else pickle.dumps(store, protocol=proto))
+        else:
+            store = copy.deepcopy(store)
+    return store
+
+
+def read_everything(store):
+    """every public read-only property / view of the store; the results are returned so that they stay alive"""
+    return [store.occupied, store.occupied_list, store.capacity, len(store), store.field_list, store.field_desc,
+            store.dtypes, store.data(), store.data(return_type="tuple"), store.as_raw_dict(), iter(store),
+            store.retrieve(list(range(store.capacity)))]
 
 
 def nontrivial(case):
@@ -346,15 +385,66 @@ def model_state(drv):
             "data": rows}
 
 
-def run_case(case):
+def run_case(case, ctx=None):
     from ribs.archives import ArrayStore
     fields = LAYOUTS[case["layout"]]
     store = ArrayStore({f: FIELD_DESC[f] for f in fields}, case["cap"])
     drv = Driver("store")
+    cnt = (lambda k, n=1: ctx.count(k, n)) if ctx is not None else (lambda k, n=1: None)
     try:
         drv.ask(f"new {case['cap']}")
         ref = {}  # oracle: insertion-ordered dict index -> token
         gsizes = []  # number of indices first filled by each add since the last clear
+        # the other objects that hold the same store: the original a copy was taken from (or the copy, when the history
+        # goes on with the original), the store a raw dict was exported from.  [label, store]; every modifying call of
+        # the history is made on each of them too and every observable compared after every operation
+        mirrors = []
+        lineage = [""]  # what `store` is, for the messages
+
+        def keep_mirror(label, m):
+            mirrors.append([label, m])
+            del mirrors[:-3]
+
+        def mirror_do(fn, want, where, invalidates):
+            """the same modifying call on every mirror: same outcome, and an iterator opened on the mirror before an add
+            / clear is stale afterwards"""
+            for label, m in mirrors:
+                it = iter(m) if invalidates else None
+                got = fn(m)
+                if got != want:
+                    return Failure("oracle", f"{where}: {label} answered {got or 'ok'} to a call that the store carrying "
+                                   f"the history{lineage[0]} answered with {want or 'ok'} (same state, same call)")
+                if it is not None:
+                    try:
+                        next(it)
+                        stale = False
+                    except RuntimeError:
+                        stale = True
+                    except StopIteration:
+                        stale = False
+                    if not stale:
+                        return Failure("oracle", f"{where}: {label}: an iterator opened before the call did not raise "
+                                       "RuntimeError after it")
+                cnt("mirror:modifying-calls")
+            return None
+
+        def probe_add(where):
+            """one more row (token 999) on `store` only; returns (target index, Failure | None)"""
+            free = [i for i in range(ref_cap) if i not in ref]
+            tgt = free[0] if free else next(iter(ref))
+            try:
+                store.add(np.array([tgt], dtype=np.int32), make_rows(fields, [999]), {}, [])
+            except Exception as e:  # pylint: disable=broad-except
+                return tgt, Failure("oracle", f"{where}: a valid add on the store{lineage[0]} raised "
+                                    f"{type(e).__name__}: {e}")
+            drv.ask(f"add - {tgt}:999")
+            version[0] += 1
+            gsizes.append(0 if tgt in ref else 1)
+            ref[tgt] = 999
+            return tgt, None
+
+        def add999(m, tgt):
+            m.add(np.array([tgt], dtype=np.int32), make_rows(fields, [999]), {}, [])
 
         def canon(olist):
             """order inside one call's group is not fixed by the property: sort each group"""
@@ -368,24 +458,31 @@ def run_case(case):
         version = [0]
         for step, op in enumerate(case["ops"]):
             kind = op["op"]
-            where = f"op#{step} {kind}"
+            where = f"op#{step} {kind}{lineage[0]}"
             if kind == "add":
                 ws = [tuple(r) for r in op["rows"]]
                 idx = np.array([w[0] for w in ws], dtype=np.int32)
                 iform = op.get("iform", "nd32")
-                idx_arg = {"nd32": idx.copy(), "nd64": idx.astype(np.int64), "list": [int(i) for i in idx],
-                           "tuple": tuple(int(i) for i in idx)}[iform]
-                rows = make_rows(fields, [w[1] for w in ws])
-                err = None
-                try:
-                    chain = [XF[x] for x in op["xfs"]]
-                    if chain and op.get("oform"):
-                        chain[-1] = with_oform(chain[-1], op["oform"])
-                    store.add(idx_arg, rows, {}, chain)
-                except IndexError:
-                    err = "err index"
-                except ValueError:
-                    err = "err value"
+
+                def do_add(s_):
+                    # fresh arguments for every store (a transform may use what it was handed as scratch space)
+                    idx_arg = {"nd32": idx.copy(), "nd64": idx.astype(np.int64), "list": [int(i) for i in idx],
+                               "tuple": tuple(int(i) for i in idx)}[iform]
+                    rows = make_rows(fields, [w[1] for w in ws])
+                    try:
+                        chain = [XF[x] for x in op["xfs"]]
+                        if chain and op.get("oform"):
+                            chain[-1] = with_oform(chain[-1], op["oform"])
+                        s_.add(idx_arg, rows, {}, chain)
+                    except IndexError:
+                        return "err index"
+                    except ValueError:
+                        return "err value"
+                    return None
+                err = do_add(store)
+                f_ = mirror_do(do_add, err, where, True)
+                if f_:
+                    return f_
                 mxfs = [XF_MODEL.get(x, x) for x in op["xfs"]]
                 m = drv.ask("add " + (",".join(mxfs) or "-") + " " + " ".join(f"{i}:{t}" for i, t in ws))
                 version[0] += 1
@@ -445,20 +542,39 @@ def run_case(case):
                 except (ValueError, IndexError) as e:
                     if isinstance(e, IndexError) and op["kind"] != "negative":
                         raise
+                    ename = "raised " + type(e).__name__
+
+                def do_bad(s_):
+                    try:
+                        s_.add(idx, rows, {}, [])
+                        return "accepted"
+                    except (ValueError, IndexError) as e:
+                        return "raised " + type(e).__name__
+                f_ = mirror_do(do_bad, ename, where, True)
+                if f_:
+                    return f_
                 drv.ask("badadd")
                 version[0] += 1
             elif kind == "clear":
                 store.clear()
+                f_ = mirror_do(lambda s_: s_.clear(), None, where, True)
+                if f_:
+                    return f_
                 drv.ask("clear")
                 ref.clear()
                 del gsizes[:]
                 version[0] += 1
             elif kind == "resize":
-                err = None
-                try:
-                    store.resize(op["cap"])
-                except ValueError:
-                    err = "err value"
+                def do_resize(s_):
+                    try:
+                        s_.resize(op["cap"])
+                    except ValueError:
+                        return "err value"
+                    return None
+                err = do_resize(store)
+                f_ = mirror_do(do_resize, err, where, False)
+                if f_:
+                    return f_
                 m = drv.ask(f"resize {op['cap']}")
                 if op["cap"] > ref_cap:
                     if err:
@@ -474,8 +590,18 @@ def run_case(case):
                 try:
                     store.resize(ref_cap + op["extra"] + 0.5)
                     return Failure("oracle", f"{where}: resize to a non-integer capacity accepted")
-                except (TypeError, ValueError):
-                    pass
+                except (TypeError, ValueError) as e:
+                    ename = "raised " + type(e).__name__
+
+                def do_badresize(s_):
+                    try:
+                        s_.resize(ref_cap + op["extra"] + 0.5)
+                        return "accepted"
+                    except (TypeError, ValueError) as e:
+                        return "raised " + type(e).__name__
+                f_ = mirror_do(do_badresize, ename, where, False)
+                if f_:
+                    return f_
             elif kind == "retrieve":
                 idx = op["idx"]
                 sel = {"all": None, "one": fields[0], "some": [fields[-1], "index"],
@@ -533,6 +659,12 @@ def run_case(case):
                     return Failure("oracle", f"{where}: retrieve returned {got}, written {want}")
                 if got != mrows:
                     return Failure("corr", f"{where}: retrieve impl={got} model={mrows}")
+                for label, m_ in mirrors:
+                    occ2, d2 = m_.retrieve(idx)
+                    got2 = [decode_row(fields, lambda name, k=k: d2[name][k]) if occ2[k] else None
+                            for k in range(len(idx))]
+                    if got2 != want or [int(x) for x in d2["index"]] != list(idx):
+                        return Failure("oracle", f"{where}: {label}: retrieve({idx}) returned {got2}, written {want}")
             elif kind == "raw":
                 raw = store.as_raw_dict()
                 if op["npz"] and "d" not in fields:
